@@ -16,7 +16,7 @@ from .repoidx import Repo, ClassHandle, func_hash
 
 BUILTINS = ['len', 'min', 'max', 'abs', 'bool', 'int', 'isinstance', 'type', 'hasattr', 'tuple', 'list',
             'bytes', 'bytearray', 'range', 'reversed', 'sorted', 'map', 'iter', 'next', 'str', 'repr', 'dict',
-            'dotdict', 'slice']
+            'dotdict', 'slice', 'zip']
 TYPE_NAMES = ['int', 'bool', 'bytes', 'bytearray', 'str', 'tuple', 'list', 'dict', 'float', 'slice', 'type_str_base']
 MODULES = ['struct', 'random', 'logging', 'log', 'sys', 'traceback', 'misc']
 
